@@ -43,13 +43,15 @@ chk("C04", "model_checking",
 chk("C06", "model_checking",
     "TLC exhausts RFC 9496 decode/encode/equals/map (Ristretto.tla) on toy curves: exactly l' strings decode, re-encoding is the identity, encoding is constant on cosets P+E[4] under "
     "every scaling and injective across cosets, the map lands in 2E for all 65 536 inputs, batched double-and-compress = encode(2P) incl. identity cosets. Conformance: every rejection "
-    "class, structured map inputs, histories with 4-torsion translates of the internal representative (hook), multiscalar wrappers.",
+    "class, structured map inputs, histories with 4-torsion translates of the internal representative (hook), multiscalar wrappers, one build without precomputed tables, equality of the compressed type (==, ct_eq, Hash) on strings differing in one bit per byte position.",
     "Same caveat. The root of a*d-1 is the literal RFC 9496 fixes.", "TLA+ spec + TLC exhaustive toy models + trace validation", "DESIGN.md 5/C06")
 chk("C07", "model_checking",
     "TLC exhausts all 256x256 (k,u) on toy curves: RFC 7748 ladder = dalek ladder = u-coordinate of the Edwards multiple, twist and small-order u included; the birational map with its "
     "exceptional points; Elligator2 never produces a rejected u; DH agreement. Conformance: byte-level x25519, Montgomery ops, bit-string ladder (lengths 0..300), typed DH for the three "
-    "secret types, conversions, Ed25519->X25519 key conversion.",
-    "Same caveat.", "TLA+ spec + TLC exhaustive toy models + trace validation", "DESIGN.md 5/C07")
+    "secret types, conversions, Ed25519->X25519 key conversion. Xproto.tla: key-agreement SESSIONS as a state machine (typed secrets and their lifetimes, wire slots, an adversary "
+    "injecting / re-encoding / copying keys): every 4-step history on the toy curve (agreement, contributory <=> not small order, alias independence); TLC-generated 12-step "
+    "behaviours replayed on live x25519-dalek objects at full size and validated by TraceX.tla through the same transition functions.",
+    "Same caveat.", "TLA+ spec + TLC exhaustive toy models + TLC-generated behaviours replayed into the code + trace validation", "DESIGN.md 5/C07, 14.11")
 chk("C08", "model_checking",
     "Ed25519.tla transcribes RFC 8032 5.1 (SHA-512 uninterpreted, evaluated by MessageDigest); TLC checks the signing algebra over the toy group with an abstract hash. Conformance: seeds x "
     "message lengths at block edges x contexts (0..255, refusal above), keypair import with matching/foreign/undecodable halves, every verification variant under right and wrong key/message/context; "
@@ -88,7 +90,7 @@ chk("C15", "model_checking",
     "catch_unwind in the driver; finite inputs.", "TLA+ spec totality on toy curves + trace validation with panic field", "DESIGN.md 5/C15")
 chk("C16", "model_checking",
     "Serde.tla gives the wire form per type and format and the deserialisation rule (length rule + native validity); TLC checks round trip and validation for every toy value and short wire string. "
-    "Conformance: 11 types x valid values, non-canonical scalars, invalid points, truncated / extended / empty payloads, wrong length prefixes, out-of-range JSON elements x bincode / bincode strict / JSON.",
+    "Conformance: 11 types x valid values, non-canonical scalars, invalid points, truncated / extended / empty payloads, wrong length prefixes, out-of-range JSON elements x bincode / bincode strict / JSON; PKCS#8 v1 / v2 documents and SubjectPublicKeyInfo (one build with the pkcs8 feature): accepted iff the embedded key is the seed's public key; equality of the compressed wire types.",
     "Trailing bytes for tuple-encoded types are bincode's business: checked with reject_trailing_bytes() and JSON. ed25519::Signature's impl is in an external crate.",
     "TLA+ wire-format spec + TLC toy model + trace validation", "DESIGN.md 5/C16")
 chk("C17", "model_checking",
